@@ -234,7 +234,7 @@ func (r *SenderReport) MarshalSize() int {
 	for _, rep := range r.Reports {
 		repsLength += rep.len()
 	}
-	return headerLength + srHeaderLength + repsLength + len(r.ProfileExtensions)
+	return headerLength + srHeaderLength + repsLength + len(r.ProfileExtensions) + getPadding(len(r.ProfileExtensions))
 }
 
 // Header returns the Header associated with this packet.
